@@ -513,10 +513,30 @@ func (st *State) runAll() {
 					alts = append(alts, int64(t.id))
 				}
 			}
-			id := int(st.decide("sched", alts))
+			for _, t := range st.armedTimers() {
+				alts = append(alts, int64(-1-t.id))
+			}
+			id := int(alts[0])
+			if len(alts) > 1 {
+				id = int(st.decide("sched", alts))
+			}
+			if id < 0 {
+				st.fire(st.timers[-1-id])
+				continue
+			}
 			next = st.thrs[id]
 			if curEnabled && next != st.cur {
 				st.preempts++
+			}
+		} else if ts := st.armedTimers(); len(ts) > 0 {
+			alts := []int64{int64(next.id)}
+			for _, t := range ts {
+				alts = append(alts, int64(-1-t.id))
+			}
+			id := int(st.decide("sched", alts))
+			if id < 0 {
+				st.fire(st.timers[-1-id])
+				continue
 			}
 		}
 		st.schedule = append(st.schedule, next.id)
